@@ -81,6 +81,8 @@ class BLS12_381_G1Type(BytesType, prim='bls12_381_g1'):
         return cls.from_value(value)
 
     def to_point(self) -> G1Uncompressed:
+        if self.value[0] & 0x40:  # point at infinity
+            return cast(G1Uncompressed, bls12_381.Z1)
         x = int.from_bytes(self.value[:48], 'big')
         y = int.from_bytes(self.value[48:], 'big')
         point = FQ(x), FQ(y), FQ(1)
@@ -111,6 +113,8 @@ class BLS12_381_G2Type(BytesType, prim='bls12_381_g2'):
         return cls(value)
 
     def to_point(self) -> G2Uncompressed:
+        if self.value[0] & 0x40:  # point at infinity
+            return cast(G2Uncompressed, bls12_381.Z2)
         x_im = int.from_bytes(self.value[:48], 'big')
         x_re = int.from_bytes(self.value[48:96], 'big')
         y_im = int.from_bytes(self.value[96:144], 'big')
